@@ -86,16 +86,17 @@ def mulT (a b : Arr Idx) : Option (Arr Term) := bcast2 Prod.mk a b
 
 /-- `view::matmul` (`matmul_t`): shape by `shape_matmul` (the constructor unwraps it: mismatching operands are outside
     this model, see C15); element `d`: `index::matmul` gives the two slice lists, `apply_slice` takes the row of lhs and
-    the column of rhs (two 1-d views), `multiply` broadcasts them, `reduce_add(…, None)` folds everything.
-    `none` as an element = the out-of-range `at(…, -2)` with a 1-d operand. -/
+    the column of rhs (two 1-d views; a 1-d operand is taken whole), `multiply` broadcasts them, `reduce_add(…, None)`
+    folds everything.  `none` as an element = an out-of-range read of the result index (not reachable for an index
+    inside the result shape, `matmul_elem_eq_sum`). -/
 def matmulV1 (sa sb : Shape) : Option (Arr (Option (List Term))) :=
   match shapeMatmul sa sb with
   | none => none
   | some dst => some ⟨dst, fun d =>
-      match matmulSlices d sa sb dst, getNeg? sa 1, getNeg? sb 2 with
+      match matmulSlices d sa sb dst, getNeg? sa 1, (if sb.length = 1 then sb[0]? else getNeg? sb 2) with
       | some (lb, row, rb, col), some k, some k' =>
-        let l : Arr Idx := ⟨[k], fun i => lb ++ [row] ++ i⟩
-        let r : Arr Idx := ⟨[k'], fun i => rb ++ i ++ [col]⟩
+        let l : Arr Idx := ⟨[k], fun i => lb ++ row.toList ++ i⟩
+        let r : Arr Idx := ⟨[k'], fun i => rb ++ i ++ col.toList⟩
         (mulT l r).map (fun m => ((sumLast 1 m).get []))
       | _, _, _ => none⟩
 
@@ -312,6 +313,54 @@ def trace (s : Shape) (offset : Int) (axis1 axis2 : Int) : Option (Arr (List (Op
   let dsh ← shapeDiagonal s offset ax1 ax2
   let diag : Arr (Option Nat) := ⟨dsh, fun d => leafRead s (diagonalIdx s.length d offset ax1 ax2)⟩
   if dsh.length = 0 then none else pure (sumLast 1 diag)
+
+/-! ## contracted-extent validation (fix C15-contraction-extent)
+
+  `view::matmulv2`, `view::inner`, `view::vecdot`, `view::tensordot` end in a broadcasting `multiply` of the re-arranged
+  operands, which alone would pair a contracted axis of extent 1 with a partner of any extent.  Since the fix each of them
+  returns the pipeline result only if the contracted extents are equal (shapes known at run time: `Nothing` otherwise);
+  `view::tensordot` with an integer `n` first refuses `n` beyond the number of dimensions of an operand.
+  The un-validated pipelines above (`matmulV2`, `inner`, `vecdot`, `tensordotCore` …) stay as they are: the views below are
+  "pipeline, then the check", in the order of the C++ (the models of `linear` / `bilinear` in NN/ use the pipelines on
+  operands that pass the check). -/
+
+/-- the check of the repaired `view::inner` / `view::vecdot`: the last extents agree (or an operand has no axis at all) -/
+def lastAligned (sa sb : Shape) : Bool := sa.length == 0 || sb.length == 0 || sa.getLast? == sb.getLast?
+
+/-- `view::matmulv2` (repaired): the pipeline result, unless `index::shape_matmul` refuses the operand shapes -/
+def matmulV2C (sa sb : Shape) : Option (Arr (List Term)) :=
+  (matmulV2 sa sb).bind (fun r => if (shapeMatmul sa sb).isSome then some r else none)
+
+/-- `view::inner` (repaired) -/
+def innerC (sa sb : Shape) : Option (Arr (List Term)) :=
+  (inner sa sb).bind (fun r => if lastAligned sa sb then some r else none)
+
+/-- `view::vecdot` (repaired) -/
+def vecdotC (sa sb : Shape) : Option (Arr (List Term)) :=
+  (vecdot sa sb).bind (fun r => if lastAligned sa sb then some r else none)
+
+/-- the check of the repaired `view::tensordot`: the last `n` extents of the two transposed operands agree pairwise
+    (`n` not beyond either rank) -/
+def tensordotAligned (sa sb : Shape) (lt rt : List Nat) (n : Nat) : Bool :=
+  match lt.mapM (fun k => sa[k]?), rt.mapM (fun k => sb[k]?) with
+  | some ash, some csh =>
+    decide (n ≤ ash.length) && decide (n ≤ csh.length) && (ash.drop (ash.length - n) == csh.drop (csh.length - n))
+  | _, _ => false
+
+def tensordotCoreC (sa sb : Shape) (lt rt : List Nat) (n : Nat) : Option (Arr (List Term)) :=
+  (tensordotCore sa sb lt rt n).bind (fun r => if tensordotAligned sa sb lt rt n then some r else none)
+
+/-- `view::tensordot(lhs, rhs, n)` (repaired): `Nothing` for `n` beyond a rank, then the pipeline and the extent check -/
+def tensordotIntC (sa sb : Shape) (n : Nat) : Option (Arr (List Term)) :=
+  if n ≤ sa.length ∧ n ≤ sb.length then
+    tensordotCoreC sa sb (List.range sa.length) (moveToEnd sb.length (List.range n)) n
+  else none
+
+/-- `view::tensordot(lhs, rhs, (lhs_axes, rhs_axes))` (repaired); the axes themselves are still unwrapped unchecked -/
+def tensordotAxesC (sa sb : Shape) (la ra : List Int) : Option (Arr (List Term)) := do
+  let la' ← la.mapM (normAxis · sa.length)
+  let ra' ← ra.mapM (normAxis · sb.length)
+  tensordotCoreC sa sb (moveToEnd sa.length la') (moveToEnd sb.length ra') la.length
 
 /-! ## SPEC: NumPy's definitions -/
 
